@@ -1,10 +1,15 @@
 import SocVerif.Driver.MuxD
 import SocVerif.Driver.MemMapD
 import SocVerif.Driver.TreeD
+import SocVerif.Driver.ActD
+import SocVerif.Driver.EvD
 
 def main (args : List String) : IO UInt32 := do
   match args with
   | ["mux"] => MuxD.main; return 0
   | ["mmap"] => MemMapD.main; return 0
   | ["tree"] => TreeD.main; return 0
+  | ["action"] => ActD.main; return 0
+  | ["monitor"] => EvD.mainMon; return 0
+  | ["evmap"] => EvD.mainMap; return 0
   | _ => IO.eprintln "usage: driver <mux|mmap|...>"; return 2
